@@ -94,7 +94,7 @@ class Group(Descriptor):
         for part in parts[1:]:
             if not part:
                 continue
-            if part.isdigit():
+            if part.isdecimal():
                 if next_psg is None:
                     raise GroupSyntaxError('Expected base atom for Benson',
                                            'group got number instead.')
